@@ -322,10 +322,11 @@ Definition sum_size (l : list frame) : Z := fold_right (fun f a => fsize f + a) 
 Definition sum_data (l : list frame) : Z := fold_right (fun f a => Z.of_nat (length (fdata f)) + a) 0 l.
 
 Inductive fc_step (c : cfg) (na nc : nat) : fc -> fc -> Prop :=
-| FcFeed : forall x bs, Forall is_byte bs -> fc_step c na nc x (mkFc (feed (fc_d x) bs) (fc_held x))
+| FcFeed : forall x bs, fc_step c na nc x (mkFc (feed (fc_d x) bs) (fc_held x))
 | FcClose : forall x, fc_step c na nc x (mkFc (close_in (fc_d x)) (fc_held x))
 | FcProgress : forall x d, dstep c na nc (fc_d x) = DProgress d -> fc_step c na nc x (mkFc d (fc_held x))
-| FcDeliver : forall x d k i f, dstep c na nc (fc_d x) = DDeliver d k i f -> fc_step c na nc x (mkFc d (fc_held x ++ [f]))
+| FcDeliver : forall x d k i f h1 h2, dstep c na nc (fc_d x) = DDeliver d k i f -> fc_held x = h1 ++ h2 ->
+    fc_step c na nc x (mkFc d (h1 ++ f :: h2))   (* the frame joins the queue of some stream *)
 | FcFail : forall x d code, dstep c na nc (fc_d x) = DFailed d code -> fc_step c na nc x (mkFc d (fc_held x))
 | FcRelease : forall x h1 f h2, fc_held x = h1 ++ f :: h2 ->
     fc_step c na nc x (mkFc (add_permits (fc_d x) 1 (fsize f)) (h1 ++ h2))
@@ -373,8 +374,10 @@ Proof. unfold is_byte, header_of_bytes. intros. lia. Qed.
 Lemma fc_inv_step : forall c na nc x y, 0 <= rfs c -> fc_inv c x -> fc_step c na nc x y -> fc_inv c y.
 Proof.
   intros c na nc x y Hrfs (Hc & Hs & Hc0 & Hs0 & Hst & Hfr & Hby) Hstep.
-  destruct Hstep as [x bs Hbs|x|x d Hd|x d k i f Hd|x d code Hd|x h1 f h2 Hh|x h1 f h2 data' Hh Hlen]; unfold fc_inv; cbn [fc_d fc_held].
-  - unfold feed; cbn [d_cnt d_siz d_st d_in]. repeat split; try assumption; try lia. apply Forall_app; split; assumption.
+  destruct Hstep as [x bs|x|x d Hd|x d k i f h1 h2 Hd Hh|x d code Hd|x h1 f h2 Hh|x h1 f h2 data' Hh Hlen]; unfold fc_inv; cbn [fc_d fc_held].
+  - unfold feed; cbn [d_cnt d_siz d_st d_in]. repeat split; try assumption; try lia. apply Forall_app; split; [assumption|].
+    apply Forall_forall. intros b Hb. apply in_map_iff in Hb. destruct Hb as (b' & <- & _). unfold is_byte.
+    pose proof (Z.mod_pos_bound b' 256). lia.
   - unfold close_in; cbn [d_cnt d_siz d_st d_in]. repeat split; try assumption; lia.
   - (* progress *)
     unfold dstep in Hd. destruct (fc_d x) as [cnt siz st inp cl cons rcv] eqn:Ed. cbn [d_cnt d_siz d_st d_in d_closed] in *.
@@ -401,6 +404,8 @@ Proof.
     + destruct (split_exact (Z.to_nat size) inp) as [[data rest]|]; [discriminate|destruct cl; discriminate].
     + discriminate.
   - (* deliver *)
+    rewrite Hh in Hc, Hs, Hfr. rewrite app_length in Hc. rewrite sum_size_app in Hs.
+    apply Forall_app in Hfr. destruct Hfr as [Hfr1 Hfr2].
     unfold dstep in Hd. destruct (fc_d x) as [cnt siz st inp cl cons rcv] eqn:Ed. cbn [d_cnt d_siz d_st d_in d_closed] in *.
     destruct st as [|h|h|h len|h len size|]; cbn [infl_c infl_s st_ok] in *.
     + destruct (split_exact 2 inp) as [[[|b0 [|b1 [|? ?]]] rest]|]; try (destruct cl; discriminate).
@@ -408,19 +413,19 @@ Proof.
     + destruct (split_exact 2 inp) as [[[|b0 [|b1 [|? ?]]] rest]|]; try (destruct cl; discriminate).
     + destruct (1 <=? cnt) eqn:E1; [|discriminate]. apply Z.leb_le in E1.
       inversion Hd; subst. unfold set_st, add_permits; cbn [d_cnt d_siz d_st d_in infl_c infl_s st_ok].
-      rewrite app_length, sum_size_app. cbn [length sum_size fold_right fsize].
+      rewrite app_length, sum_size_app. cbn [length]. change (sum_size (mkFrame (frame_kind h) [] 0 :: h2)) with (0 + sum_size h2).
       repeat split; try assumption; try lia.
-      apply Forall_app; split; [assumption|]. constructor; [|constructor]. unfold frame_ok; cbn [fdata fsize length]. lia.
+      apply Forall_app; split; [assumption|]. constructor; [|assumption]. unfold frame_ok; cbn [fdata fsize length]. lia.
     + destruct ((1 <=? cnt) && (Z.min len (rfs c) <=? siz)); discriminate.
     + destruct (split_exact (Z.to_nat size) inp) as [[data rest]|] eqn:Es; [|destruct cl; discriminate].
       destruct (split_exact_spec _ _ _ _ Es) as [-> Hl].
       apply Forall_app in Hby. destruct Hby as [_ Hrest].
       destruct Hst as ((Hz1 & Hz2) & Hz3 & Hz4).
       inversion Hd; subst. unfold take_bytes; cbn [d_cnt d_siz d_st d_in].
-      rewrite app_length, sum_size_app. cbn [length sum_size fold_right fsize].
+      rewrite app_length, sum_size_app. cbn [length]. change (sum_size (mkFrame FK_DATA data size :: h2)) with (size + sum_size h2).
       assert (Hfo : frame_ok c (mkFrame FK_DATA data size)) by (unfold frame_ok; cbn [fdata fsize]; lia).
       destruct (len - size =? 0) eqn:E0; cbn [infl_c infl_s st_ok]; repeat split; try assumption; try lia;
-        try (apply Forall_app; split; [assumption|constructor; [exact Hfo|constructor]]);
+        try (apply Forall_app; split; [assumption|constructor; [exact Hfo|assumption]]);
         try (apply Z.eqb_neq in E0; lia).
     + discriminate.
   - (* fail *)
